@@ -35,6 +35,7 @@ class PrefixSid(Attribute):
     FLAG: int = Attribute.Flag.TRANSITIVE | Attribute.Flag.OPTIONAL
     CACHING: ClassVar[bool] = True
     TLV: ClassVar[int] = -1
+    DISCARD: ClassVar[bool] = True  # RFC 8669 6: a malformed BGP Prefix-SID attribute is discarded
 
     # Registered subclasses we know how to decode
     registered_srids: ClassVar[dict[int, Type[Any]]] = dict()
